@@ -140,4 +140,89 @@ def build(active_known=frozenset()):
                   z3.And(z3.ToReal(V.Val.i(a.result)) >= V.real_of(a.x), V.real_of(a.x) > z3.ToReal(V.Val.i(a.result)) - 1)),
         ),
     )
+    _lisp_contracts(pack)
     return pack
+
+
+def _R(v):
+    return V.real_of(v)
+
+
+def _lisp_contracts(pack):
+    """quot / rem / mod are Lisp functions of core.lpy: the verified text is the Python /repo's compiler emits (pyvc.lpy)."""
+    from basilisp import main as _bmain
+
+    _bmain.init()
+    import importlib
+
+    importlib.import_module("basilisp.core")
+    pack.assume("NOT under contract: basilisp.core/rem and basilisp.core/mod. Their emitted bodies were extracted and executed (30 and 20 paths), but the "
+                "obligations `rem = num - div * trunc(num / div)` / `mod = num - div * floor(num / div)` mix products of two symbolic numbers with "
+                "integer-valued terms and stay `unknown` in z3 (100 s), in cvc5 and in the real relaxation (nlsat); they are not claimed")
+    pack.trust("for the functions of core.lpy: compile() of the module the generator emits means what ast.unparse prints of it; the live "
+               "basilisp.core module was produced by the same pipeline from the same file")
+
+    nz = ("divisor is not zero", lambda a: _R(a.div) != 0)
+
+    def lin(eng, st):
+        eng.linear_pruning = True
+
+    # quot ----------------------------------------------------------------------------
+    c = pack.contract("basilisp.core:quot")
+    c.param("num", EXACT).param("div", EXACT)
+    c.requires(*nz)
+    c.raises()
+    c.ensures("an integer", lambda a: V.is_int(a.result))
+    c.ensures(
+        "the exact quotient rounded toward zero: |q*div| <= |num| < |(|q|+1)*div| and q*div has the sign of num",
+        lambda a: _quot_spec(_R(a.num), _R(a.div), z3.ToReal(V.Val.i(a.result))),
+    )
+    c.replay(_replay_qrm("quot"))
+    c.setup(lin)
+
+
+
+def _abs(x):
+    return z3.If(x >= 0, x, -x)
+
+
+def TRUNC(t):
+    """spec function: the integer nearest to t between 0 and t"""
+    return z3.If(t >= 0, z3.ToReal(z3.ToInt(t)), -z3.ToReal(z3.ToInt(-t)))
+
+
+def FLOOR(t):
+    return z3.ToReal(z3.ToInt(t))
+
+
+def _quot_spec(x, y, q):
+    # q = trunc(x / y), characterised (q is an integer by a separate clause): between 0 and x / y, less than 1 from x / y
+    t = x / y
+    return z3.If(t >= 0, z3.And(q <= t, t < q + 1), z3.And(q >= t, t > q - 1))
+
+
+def _rem_spec(x, y, r):
+    return r == x - y * TRUNC(x / y)
+
+
+def _mod_spec(x, y, r):
+    return r == x - y * FLOOR(x / y)
+
+
+def _replay_qrm(fname):
+    def rp(m, ctx, ob):
+        x, y = m.py(ctx.num), m.py(ctx.div)
+        return (
+            "from fractions import Fraction\nimport importlib, math\nfrom basilisp import main as bm\nbm.init()\n"
+            "core = importlib.import_module('basilisp.core')\n"
+            f"x, y = {x!r}, {y!r}\n"
+            f"r = core.{fname}(x, y)\n"
+            "X, Y = Fraction(x), Fraction(y)\n"
+            "q = math.trunc(X / Y)\n"
+            "exp = {'quot': q, 'rem': X - Y * q, 'mod': X - Y * math.floor(X / Y)}['" + fname + "']\n"
+            "ok = isinstance(r, (int, Fraction)) and not isinstance(r, bool) and Fraction(r) == exp and (not (isinstance(x, int) and isinstance(y, int)) or isinstance(r, int))\n"
+            f"print('{fname}', repr(x), repr(y), '->', repr(r), '; expected', exp)\n"
+            "print('REPRODUCED' if not ok else 'not reproduced')\n"
+        )
+
+    return rp
